@@ -17,6 +17,10 @@ def gen(r, n):
     # a descendant in the same process group that also ignores SIGTERM: the whole group is killed
     scs.append(dict(u=150, period=1, ta=1, grace=1, leak=0.7, dur=6, on_term="ignore", child=True, sigs=[]))
     scs.append(dict(u=150, period=1, ta=2, grace=2, leak=0.7, dur=7.5, on_term="ignore", child=True, sigs=[]))
+    # the same for a setup script (its own slow-timeout; failure => exit 105, no test starts)
+    scs.append(dict(u=150, period=1, ta=2, grace=1, leak=0.7, dur=6, on_term="ignore", sigs=[], as_script=True))
+    scs.append(dict(u=150, period=1, ta=None, grace=1, leak=0.7, dur=2.5, on_term="exit", sigs=[], as_script=True))
+    scs.append(dict(u=150, period=2, ta=1, grace=0, leak=0.7, dur=4.5, on_term="ignore", sigs=[], as_script=True))
     while len(scs) < n:
         period = r.choice([1, 2])
         ta = r.choice([None, 1, 2, 3])
